@@ -172,6 +172,7 @@ mutual
     | .list e _ _ _ => frag e
     | .tuple es _ _ _ => fragList es
     | .union .. => false
+    | .callable .. => false
   def fragList : List Spec → Bool
     | [] => true
     | s :: ss => frag s && fragList ss
@@ -261,6 +262,7 @@ mutual
         have := typeCheck_ok env (some [.dict]) w w' hw hk
         exact ⟨this.2, this.1⟩
     | union cands f => simp [frag] at hs
+    | callable f => simp [frag] at hs
     | list elem mn mx f =>
       simp only [frag] at hs
       simp only [apply] at h ⊢
